@@ -136,7 +136,7 @@ PROPS = {
     ),
     "C04": dict(
         module="Evl.Props.C04",
-        theorems=["Evl.C04.discipline", "Evl.C04.discipline_ok", "Evl.C04.discipline_nonvacuous", "Evl.C04.one_section", "Evl.C04.roots_mutations_in_section", "Evl.C04.swap_is_one_store",
+        theorems=["Evl.C04.discipline", "Evl.C04.discipline_ok", "Evl.C04.discipline_nonvacuous", "Evl.C04.one_section", "Evl.C04.roots_mutations_in_section", "Evl.C04.window_registered", "Evl.C04.window_removed", "Evl.C04.window_overlap", "Evl.C04.swap_is_one_store",
                   "Evl.C04.lockset_sound'", "Evl.C04.sequential"],
         runs=[race_run("window", 30, 400, 120), race_run("registry", 300, 3000, 1000), REGISTRY_RUN], oracle_prefixes=["C04"], models=["M4 Lockset", "M1 Registry", "Generated.Accesses/RegistryFacts"],
         trusted_base=TB_COMMON + ["gofacts translator: Evl/Generated/*.lean are regenerated from /repo on every run"],
